@@ -50,9 +50,17 @@ func genC19(seed uint64, tier string) *Tape {
 			x := rng.IntN(100)
 			switch {
 			case x < 25:
-				t.Steps = append(t.Steps, Step{Op: "add", K: 1 + rng.IntN(5)})
+				k := 1 + rng.IntN(5)
+				if rng.IntN(5) == 0 {
+					k = 8 + rng.IntN(24) // a burst: the batch that carries it is kilobytes on the wire
+				}
+				t.Steps = append(t.Steps, Step{Op: "add", K: k})
 			case x < 45:
-				t.Steps = append(t.Steps, Step{Op: "batch", K: 1 + rng.IntN(6), X: int64(rng.IntN(3))})
+				k := 1 + rng.IntN(6)
+				if rng.IntN(4) == 0 {
+					k = 50
+				}
+				t.Steps = append(t.Steps, Step{Op: "batch", K: k, X: int64(rng.IntN(3))})
 			case x < 75:
 				t.Steps = append(t.Steps, Step{Op: "deliver", Node: rng.IntN(6), X: int64(rng.IntN(1 << 16))})
 			case x < 88:
